@@ -3,6 +3,7 @@
 package app
 
 import (
+	"os/exec"
 	"context"
 	"errors"
 	"strings"
@@ -32,7 +33,9 @@ func vShutCmdRun(c *command.CmdWrapper) error {
 		return errors.New("exit status 1")
 	default: // "sleep 30": runs into the context deadline
 		<-vShutCmdCtx.Done()
-		return errors.New("signal: killed")
+		// what os/exec reports for a command killed through its context: an ExitError
+		// whose exit code is -1 (no exit status: the command died by a signal)
+		return &exec.ExitError{}
 	}
 }
 
